@@ -33,6 +33,7 @@ class CondGen(object):
         self.helpers = set()
         self.regs = {}               # \newcount registers: name -> current value (assignments happen between the top-level items)
         self.reginit = {}
+        self.dregs = {}              # \newdimen registers: name -> value in pt (set once in the prelude)
         self.nmac = 0
         self.forms = set()
 
@@ -85,6 +86,19 @@ class CondGen(object):
 
     def dim_operand(self):
         r = self.r
+        if self.dregs and r.random() < 0.35:
+            # a \newdimen register: bare, with signs, or with a factor
+            nm = r.choice(sorted(self.dregs))
+            v = self.dregs[nm]
+            self.features.add('dimen-register-operand')
+            k = r.random()
+            if k < 0.4:
+                return '\\%s' % nm, v
+            if k < 0.75:
+                run = r.choice(['-', '-', '+', '--', '- '])
+                return run + '\\%s' % nm, (-v if run.count('-') % 2 else v)
+            f = r.choice(['2', '0.5', '-3', '1.5'])
+            return f + '\\%s' % nm, Fraction(f) * v
         u = r.choice(UNITS)
         if u == 'sp':
             n = r.choice([0, 1, 65536, 100000, 655360])
@@ -262,6 +276,9 @@ class CondGen(object):
     def program(self):
         r = self.r
         body = ''
+        if r.random() < 0.3:
+            for k in range(r.randint(1, 2)):
+                self.dregs['zqd' + alpha(k)] = Fraction(r.choice([0, 3, 10, 12, -5]))
         if r.random() < 0.35:
             for k in range(r.randint(1, 2)):
                 nm = 'zqr' + alpha(k)
@@ -288,6 +305,8 @@ class CondGen(object):
             pre += '\\def\\%s{%s}' % (name, b)
         for sw in self.switches:
             pre += '\\newif\\%s ' % sw
+        for nm, v in sorted(self.dregs.items()):
+            pre += '\\newdimen\\%s \\%s=%dpt ' % (nm, nm, v)
         for nm, v in sorted(self.reginit.items()):
             pre += '\\newcount\\%s \\%s=%d ' % (nm, nm, v)
         if 'ifzqmac' in self.helpers:
